@@ -23,6 +23,14 @@ CHECKS = {
                      'events/handlers/nesting',
                 note='trusted: z3, the pathex proxies, the ghost log kept by generated handlers; bounds in evidence; single-threaded stepping '
                      'with fire()/flush()'),
+    'C03': dict(engine='pathex', technique='bounded exploration of thread schedules of the real code, schedule positions as solver-enumerated variables (pathex)', ref='DESIGN.md 4/C03',
+                text='the schedule is the symbolic variable: the real Manager.run() thread and the firing thread(s) run one at a time under '
+                     'a baton, every source line of the traced circuits functions is a pre-emption point, and the positions of at most P '
+                     'pre-emptions (k traced lines after a thread got the baton) and the thread taking over are choice variables '
+                     'enumerated exhaustively; every schedule within the bound must dispatch each fired event exactly once in '
+                     'per-thread order and must never leave the loop blocked in its untimed idle wait with a non-empty queue',
+                note='trusted: the scheduler (sys.settrace line events, scheduler-aware RLock/Event doubles) and pathex; fall-back idle '
+                     'generator only; P pre-emptions within the stated windows; pre-emption inside one source line is not explored'),
     'C04': dict(engine='pathex', technique=TECH, ref='DESIGN.md 4/C04',
                 text='bounded symbolic execution of the real dispatcher/task/Value code over all combinations of handler shapes '
                      '(return/None/falsy/raise/generators yielding k values or raising at step j) and feedback flags for up to the stated '
